@@ -20,6 +20,9 @@ fn run_check(id: &str, tier: Tier) -> i32 {
 	let reg = common::registry();
 	let rep = match id {
 		"C01" => checks::c01::run(tier, &reg),
+		"C02" => checks::c02::run(tier, &reg),
+		"C03" => checks::c03::run(tier, &reg),
+		"C04" => checks::c04::run(tier),
 		_ => {
 			eprintln!("unknown property {}", id);
 			return 2;
@@ -36,6 +39,9 @@ fn run_replay(id: &str, path: &str) -> i32 {
 	let sub = case["sub"].as_str().unwrap_or("");
 	let r = match sub.split('.').next().unwrap_or("") {
 		"C01" => checks::c01::replay(&reg, case),
+		"C02" => checks::c02::replay(&reg, case),
+		"C03" => checks::c03::replay(&reg, case),
+		"C04" => checks::c04::replay(case),
 		_ => {
 			eprintln!("no replayer for sub-check {}", sub);
 			return 2;
